@@ -413,7 +413,10 @@ pub fn rc_cut_off(w: &World, ca_name: &str, rcn: Option<&str>, depth: usize) -> 
     let selected: Vec<&serde_json::Value> = match rcn {
         Some(n) => match rcs.get(n) {
             Some(rc) => vec![rc],
-            None => return false, // the class does not exist (any more)
+            // the class does not exist (any more): for the CA asked about
+            // that means its objects should be gone; for a parent further up
+            // it means that whatever hangs below is cut off
+            None => return depth > 0,
         },
         None => rcs.values().collect(),
     };
